@@ -76,9 +76,10 @@ def ensure_mirror():
 # ---- build of generated code + driver ----------------------------------------------
 SAN_FLAGS = {
     "plain": (["gcc"], ["-O1", "-g", "-w", "-std=gnu99"], []),
-    # pointer-overflow is left out: it only adds "applying zero offset to null pointer" (NULL + 0), an idiom
-    # the skeletons use on empty buffers everywhere; out-of-bounds accesses are ASan's business
-    "asan": (["clang"], ["-O1", "-g", "-w", "-std=gnu99", "-fsanitize=address,undefined", "-fno-sanitize=pointer-overflow",
+    # pointer-overflow and nonnull-attribute are left out: they only add "applying zero offset to null pointer"
+    # (NULL + 0) and memcpy(dst, NULL, 0) on empty buffers, idioms the skeletons use everywhere (recorded once in
+    # DESIGN.md as a finding class); out-of-bounds accesses are ASan's business
+    "asan": (["clang"], ["-O1", "-g", "-w", "-std=gnu99", "-fsanitize=address,undefined", "-fno-sanitize=pointer-overflow,nonnull-attribute",
                          "-fno-sanitize-recover=undefined", "-fno-omit-frame-pointer"],
              ["-fsanitize=address,undefined"]),
 }
